@@ -9,6 +9,7 @@ package interp
 import (
 	"fmt"
 	"go/types"
+	"math"
 	"os"
 	"sort"
 	"strings"
@@ -112,6 +113,7 @@ type PathSample struct {
 	Model     map[string]uint64 `json:"model"`
 	Syms      []SymRec          `json:"syms"`
 	Reached   []string          `json:"reached,omitempty"`
+	Obs       []string          `json:"observations,omitempty"`
 }
 
 type ExploreStats struct {
@@ -150,6 +152,8 @@ type ExploreConfig struct {
 	Trace     bool
 	Params    map[string]int
 	LenCap    int
+	// Summaries: function name (package under test) -> contract name
+	Summaries map[string]string
 }
 
 // pathCtx is the per-path symbolic state.
@@ -178,6 +182,7 @@ type pathCtx struct {
 	drawLog                                              []drawRec
 	incTags                                              []string
 	curLabel                                             string
+	obs                                                  []obsRec
 	panicWhere                                           string
 	panicStack                                           []string
 	workUnits                                            int64
@@ -699,13 +704,13 @@ func (ex *Explorer) done(res *PathResult, px *pathCtx) {
 	} else {
 		st.Paths++
 		st.Reach["end"]++
-		if len(ex.Samples) < ex.Cfg.KeepSamples {
+		if len(ex.Samples) < ex.Cfg.KeepSamples || (st.Paths&(st.Paths-1)) == 0 && len(ex.Samples) < 4*ex.Cfg.KeepSamples {
 			m := map[string]uint64{}
 			if px.modelOK {
 				for _, s := range px.syms {
 					m[s.Name] = px.model[s.Name]
 				}
-				ex.Samples = append(ex.Samples, PathSample{Decisions: res.Decisions, Model: m, Syms: px.syms, Reached: px.reached})
+				ex.Samples = append(ex.Samples, PathSample{Decisions: res.Decisions, Model: m, Syms: px.syms, Reached: px.reached, Obs: px.evalObs()})
 			}
 		}
 	}
@@ -766,4 +771,55 @@ func (ex *Explorer) SortedFuncs() []string {
 	}
 	sort.Strings(out)
 	return out
+}
+
+type obsRec struct {
+	key string
+	val value
+}
+
+// evalObs renders the path's observations under its model.
+func (px *pathCtx) evalObs() []string {
+	var out []string
+	for _, o := range px.obs {
+		out = append(out, o.key+"="+evalString(o.val, px.model))
+	}
+	return out
+}
+
+func evalString(v value, m Model) string {
+	switch s := v.(type) {
+	case string:
+		return s
+	case *rope:
+		var sb strings.Builder
+		for _, p := range s.parts {
+			switch p.kind {
+			case rkLit:
+				sb.WriteString(p.lit)
+			case rkNum:
+				sb.WriteString(fmt.Sprint(int64(EvalTerm(p.num, m))))
+			case rkBytes:
+				for _, b := range p.bytes {
+					sb.WriteByte(byte(EvalTerm(b, m)))
+				}
+			default:
+				sb.WriteString("?")
+			}
+		}
+		return sb.String()
+	case symInt:
+		x := EvalTerm(s.t, m)
+		if kindSigned(s.k) {
+			return fmt.Sprint(sext64(x, s.t.w))
+		}
+		return fmt.Sprint(x)
+	case symBool:
+		return fmt.Sprint(EvalTerm(s.t, m) == 1)
+	case symFloat:
+		return fmt.Sprint(math.Float64frombits(EvalTerm(s.t, m)))
+	case iface:
+		return evalString(s.v, m)
+	}
+	return fmt.Sprint(v)
 }
